@@ -31,6 +31,9 @@ def _probe_job():
 
 
 def run(ctx: Ctx) -> None:
+    from harness.checks.c13 import unwind_discipline
+
+    unwind_discipline(ctx)          # the precision-flag managers restore the flag on every exit path
     rng = random.Random(ctx.seed)
     facts = {"J2O_HostFacts.tla": "---- MODULE J2O_HostFacts ----\nFactWithinDup == FALSE\n====\n"}
     r = run_tlc("MC_Host", "MC_Host.cfg", gen_files=facts, timeout=1700)
